@@ -128,7 +128,7 @@ func (x *Exec) applyTCP(ev Event, now time.Time) (*Viol, bool) { //nolint:gocycl
 
 			return nil, true
 		}
-		if !m.Allowed(p.IP) {
+		if !m.AllowedFor(ev.C, p.IP) {
 			if res.Resp == nil || res.Resp.Class != wire.Error {
 				return x.viol("policy", "connect-should-fail-denied", ev, respStr(res)), true
 			}
